@@ -302,6 +302,33 @@ func (c *Ctx) RunC09(tier string) {
 		rep.Bound += "; files of 300 (thorough: and 70000) instructions with the entry point on the last one"
 	}
 
+	// (b3) buffer boundaries: a comment line pads the text so that the bytes of
+	// the canonical lines sweep across offsets 4096, 8192 and 65536 (every
+	// alignment of every line end, LF and CR-LF)
+	for _, legacy := range []bool{false, true} {
+		M := uint64(8000)
+		al := alphabet12(legacy, M)
+		w := []g.Instruction{al[1], al[3], al[5]}
+		lines := ref.PrintLines(w, 2, legacy, M, ref.SpellSigned)
+		for _, eol := range []string{"\n", "\r\n"} {
+			body := strings.Join(lines, eol) + eol
+			for _, B := range []int{4096, 8192, 65536} {
+				if B > 8192 && !thorough && eol != "\n" {
+					continue
+				}
+				for pad := B - len(body) - 6; pad <= B+1; pad++ {
+					if !c.mine() || c.expired() {
+						continue
+					}
+					text := ";" + strings.Repeat("x", pad-1-len(eol)) + eol + body
+					c.check09(&textCase{M: M, Legacy: legacy, Text: text, Code: hx.CoreStr(w), Start: 2, Note: fmt.Sprintf("first instruction line at byte %d", pad)})
+					rep.Count("c09:buffer-boundary-alignments")
+				}
+			}
+		}
+	}
+	rep.Bound += "; a three-instruction file behind a comment line of every length that puts any of its bytes at offset 4096, 8192 or 65536 (LF and CR-LF)"
+
 	// (c) layout perturbations: every set of <= 2 (quick: <= 1, <= 2 on the first warrior)
 	nw := 0
 	for _, legacy := range []bool{false, true} {
